@@ -128,6 +128,10 @@ class BestEval(Unit):
         j = z3.Int("vcx_j")
         # invariant of the stored violations (contract of Problem.maxcv): NaN or >= 0
         c.assume(z3.ForAll([j], z3.Implies(z3.And(0 <= j, j < M.len), z3.Or(M.nan[j], M.r[j] >= 0)), patterns=[M.r[j]]))
+        # NOMIX (invariant of the filter established by Problem.__call__, pbcall.py) is an *optional* hypothesis: it is used only
+        # for obligations that fail without it, which then make the providing obligations of Problem.__call__ mandatory
+        from .pbcall import nomix_all
+        c.assume_optional("filter.nomix", nomix_all(F, M, z3.Bool(c.fresh_name("filter_all_defined"))))
         tol = SF.fresh("feasibility_tol", finite=True)
         pb._feasibility_tol = tol
         pen = SF.fresh("penalty", finite=True)
@@ -143,6 +147,7 @@ class BestEval(Unit):
             F2, M2, X2 = SList("F1"), SList("M1"), XList("X1")
             c.assume(z3.And(F2.len >= 1, M2.len == F2.len, X2.len == F2.len))
             c.assume(z3.ForAll([j], z3.Implies(z3.And(0 <= j, j < M2.len), z3.Or(M2.nan[j], M2.r[j] >= 0)), patterns=[M2.r[j]]))
+            c.assume_optional("filter.nomix", nomix_all(F2, M2, z3.Bool(c.fresh_name("filter_all_defined"))))
             self._fun_filter, self._maxcv_filter, self._x_filter = F2, M2, X2
             # ... and it raises CallbackSuccess (after the filter update) iff the user's callback asked to stop
             if c.choose("callback_stops", 2, ["no", "yes"]):
